@@ -3,8 +3,8 @@
 usage: confirm_seed.py C17 a "src/tests/unit/test_ibldsp.py" "<needs>" "<detected-by>" """
 import json, os, shutil, subprocess, sys
 pid, var, tests, needs, detected = sys.argv[1:6]
-wt = f"/tmp/wt_{pid}"
-src = f"/tmp/seed_out/{pid}/{var}"
+wt = os.environ.get("SEED_WT_PREFIX", "/tmp/wt_") + pid
+src = os.environ.get("SEED_OUT", "/tmp/seed_out") + f"/{pid}/{var}"
 def sh(cmd, **kw):
     return subprocess.run(cmd, shell=True, capture_output=True, text=True, **kw)
 assert sh(f"git -C {wt} status --porcelain").stdout.strip() == "", "worktree not clean"
@@ -14,13 +14,28 @@ d0 = sh(f"cd {wt} && /venv/bin/python {src}/demo.py", env=env)
 assert sh(f"git -C {wt} apply {src}/patch.diff").returncode == 0, "patch does not apply"
 try:
     d1 = sh(f"cd {wt} && /venv/bin/python {src}/demo.py", env=env)
-    t = sh(f"cd {wt} && /venv/bin/python -m pytest -q -p no:cacheprovider {tests} 2>&1 | tail -15", env=env)
+    if tests == "ALL":
+        # the pinned baseline: every test of /root/.vp/BASELINE.json's stable_pass list must still pass
+        jx = env["TMPDIR"] + f"/junit_{var}.xml"
+        t = sh(f"cd {wt} && /venv/bin/python -m pytest -q -p no:cacheprovider --timeout=900 --continue-on-collection-errors --junitxml={jx} 2>&1 | tail -15", env=env)
+    else:
+        t = sh(f"cd {wt} && /venv/bin/python -m pytest -q -p no:cacheprovider {tests} 2>&1 | tail -15", env=env)
 finally:
     sh(f"git -C {wt} checkout -- .")
 tail = t.stdout.strip().splitlines()
 failed = sorted(l.split()[1] for l in tail if l.startswith("FAILED"))
 EXPECTED_FAIL = ("TestShift", "test_fk", "test_saturation", "test_spike_window", "test_wave_shift", "test_sync_timestamps_linear", "test_pre_proc", "test_parallel_computation")
 unexpected = [f for f in failed if not any(e in f for e in EXPECTED_FAIL)]
+if tests == "ALL":
+    import xml.etree.ElementTree as ET
+    passed = set()
+    for tc in ET.parse(jx).getroot().iter("testcase"):
+        if not any(ch.tag in ("failure", "error", "skipped") for ch in tc):
+            passed.add(f"{tc.get('classname')}::{tc.get('name')}")
+    stable = json.load(open("/root/.vp/BASELINE.json"))["stable_pass"]
+    unexpected = sorted(x for x in stable if x not in passed)
+    failed = sorted(set(failed))
+    tests = "(whole suite, as in /root/.vp/BASELINE.json)"
 ok = d0.returncode == 0 and d1.returncode == 1 and not unexpected
 print(f"{pid}/{var}: demo pristine={d0.returncode} patched={d1.returncode} tests: {tail[-1] if tail else '?'} unexpected_failures={unexpected} -> {'CONFIRMED' if ok else 'NOT CONFIRMED'}")
 if ok:
